@@ -134,7 +134,169 @@ theorem append_groups_truncated :
 only `str` and `sym`, and `truncate3` only shortens -/
 theorem handler_changes_nothing_else : blocks.all (fun b => b.handlerMutates.isEmpty) = true := by decide +kernel
 
+/-- **`check_results` as read from today's source is the verifier the schedule theorem needs**: every recorded entry is parsed
+inside the time-limited `try`, the handler that takes the parse error puts the function on `to_change`, and the only way a function
+is not checked is the parameter-count test — in particular no skip on rows carrying the marker. -/
+theorem check_results_shape :
+    verifier = ⟨true, true, ["to_change"], ["all_nparam[i] != uniq_nparam[matches[i]]"]⟩ := by decide
+
+/-- whether the regenerated `check_results` skips rows for any reason other than the parameter count -/
+def skipOnNanToday : Bool := !(verifier.skips == ["all_nparam[i] != uniq_nparam[matches[i]]"] && verifier.parseInsideTry
+  && verifier.handlerTakesParseError && verifier.handlerAppends == ["to_change"])
+
+/-! ### stale records, later commits, and the verifier -/
+section verifier
+variable {M : Type}
+
+/-- the stale-record state: a block interrupted after its in-place append leaves `chain₀ ++ [nan]` with the string and the
+sympy object of the entry state -/
+theorem fault_leaves_stale_record (t : Tri S Y (List (Ent M))) (y : Y) (s : S) :
+    runBlock t [.setSym y, .updInv (· ++ [Ent.nan]), .setStr s] (some 2) = ⟨t.str, t.sym, t.inv ++ [Ent.nan]⟩ := by
+  simp [runBlock, runPrefix, handler, applyEff]
+
+/-- the model of `check_results` un-merges every row with an unjustified marker, provided it has no skip on the marker -/
+theorem checkRow_covers (np : S → Nat) (n0 : Nat) (subsOk : Tri S Y (List (Ent M)) → Bool) (t : Tri S Y (List (Ent M)))
+    (h : nanUnjustified np n0 t = true) : checkRow np n0 subsOk false t = true := by
+  simp only [nanUnjustified, Bool.and_eq_true, beq_iff_eq] at h
+  simp [checkRow, h.1, h.2]
+
+/-- ... which is the case for `check_results` as regenerated from today's source -/
+theorem checkRow_today_covers (np : S → Nat) (n0 : Nat) (subsOk : Tri S Y (List (Ent M)) → Bool) (t : Tri S Y (List (Ent M)))
+    (h : nanUnjustified np n0 t = true) : checkRow np n0 subsOk skipOnNanToday t = true := by
+  have : skipOnNanToday = false := by decide
+  rw [this]; exact checkRow_covers np n0 subsOk t h
+
+theorem flagged_commit [DecidableEq S] (np : S → Nat) (n0 : Nat) (Exact : Tri S Y (List (Ent M)) → Prop)
+    (g l : Tri S Y (List (Ent M))) (hg : Flagged np n0 Exact g) (hl : Flagged np n0 Exact l) :
+    Flagged np n0 Exact (commit g l) := by
+  unfold commit; split <;> assumption
+
+theorem flagged_runCall [DecidableEq S] (np : S → Nat) (n0 : Nat) (Exact : Tri S Y (List (Ent M)) → Prop)
+    (Steps : List (Eff S Y (List (Ent M))) → Prop) (hs : StepSound np n0 Exact Steps)
+    (g : Tri S Y (List (Ent M))) (bs : List (List (Eff S Y (List (Ent M))) × Option Nat))
+    (hb : ∀ b ∈ bs, Steps b.1) (hg : Flagged np n0 Exact g) : Flagged np n0 Exact (runCall g bs) := by
+  unfold runCall
+  apply flagged_commit _ _ _ _ _ hg
+  suffices h : ∀ (t : Tri S Y (List (Ent M))), Flagged np n0 Exact t →
+      Flagged np n0 Exact (bs.foldl (fun t b => runBlock t b.1 b.2) t) from h g hg
+  induction bs with
+  | nil => intro t ht; exact ht
+  | cons b bs ih =>
+    intro t ht
+    simp only [List.foldl_cons]
+    apply ih (fun b' hb' => hb b' (List.mem_cons_of_mem _ hb'))
+    have hS := hb b (List.mem_cons_self ..)
+    cases hf : b.2 with
+    | none => exact hs.complete t b.1 hS ht
+    | some k => exact hs.interrupted t b.1 k hS ht
+
+/-- **Any schedule of faults, with the verifier, ends in a sound row.**  For EVERY schedule — any number of calls, any number of
+blocks per call, any of them interrupted at any point, in particular the same block at the same point in every round — if the CAS
+steps are `StepSound` and the verifier un-merges at least the rows whose published chain carries a marker not justified by a
+parameter loss (`nanUnjustified`, a decidable predicate of the published triple), then the final row satisfies the C03 invariant. -/
+theorem fault_schedule_sound_with_verifier [DecidableEq S] (np : S → Nat) (n0 : Nat) (Exact : Tri S Y (List (Ent M)) → Prop)
+    (Steps : List (Eff S Y (List (Ent M))) → Prop) (hs : StepSound np n0 Exact Steps)
+    (V : Tri S Y (List (Ent M)) → Bool) (hV : ∀ t, nanUnjustified np n0 t = true → V t = true)
+    (orig : Tri S Y (List (Ent M))) (hid : Exact ⟨orig.str, orig.sym, []⟩)
+    (calls : List (List (List (Eff S Y (List (Ent M))) × Option Nat)))
+    (hc : ∀ c ∈ calls, ∀ b ∈ c, Steps b.1) (glob : Tri S Y (List (Ent M))) (hg : Flagged np n0 Exact glob) :
+    C03Row np n0 Exact (verify V orig (runSchedule glob calls)) := by
+  have hfin : Flagged np n0 Exact (runSchedule glob calls) := by
+    unfold runSchedule
+    induction calls generalizing glob with
+    | nil => exact hg
+    | cons c cs ih =>
+      simp only [List.foldl_cons]
+      exact ih (fun c' hc' => hc c' (List.mem_cons_of_mem _ hc')) _
+        (flagged_runCall np n0 Exact Steps hs glob c (hc c (List.mem_cons_self ..)) hg)
+  generalize runSchedule glob calls = t at hfin
+  unfold verify
+  by_cases hv : V t = true
+  · simp [hv, C03Row, hasNan, hid]
+  · rw [if_neg hv]
+    unfold C03Row
+    by_cases hnan : hasNan t.inv = true
+    · rw [if_pos hnan]
+      have hne : ¬ np t.str = n0 := by
+        intro he
+        have : nanUnjustified np n0 t = true := by simp [nanUnjustified, hnan, he]
+        exact hv (hV t this)
+      have := hfin.1
+      omega
+    · rw [if_neg hnan]
+      rcases hfin.2 with h | h
+      · exact absurd h hnan
+      · exact h
+
+/-- the theorem instantiated with the model of today's `check_results` -/
+theorem fault_schedule_sound_check_results [DecidableEq S] (np : S → Nat) (n0 : Nat) (Exact : Tri S Y (List (Ent M)) → Prop)
+    (Steps : List (Eff S Y (List (Ent M))) → Prop) (hs : StepSound np n0 Exact Steps)
+    (subsOk : Tri S Y (List (Ent M)) → Bool)
+    (orig : Tri S Y (List (Ent M))) (hid : Exact ⟨orig.str, orig.sym, []⟩)
+    (calls : List (List (List (Eff S Y (List (Ent M))) × Option Nat)))
+    (hc : ∀ c ∈ calls, ∀ b ∈ c, Steps b.1) (glob : Tri S Y (List (Ent M))) (hg : Flagged np n0 Exact glob) :
+    C03Row np n0 Exact (verify (checkRow np n0 subsOk skipOnNanToday) orig (runSchedule glob calls)) :=
+  fault_schedule_sound_with_verifier np n0 Exact Steps hs _ (checkRow_today_covers np n0 subsOk) orig hid
+    calls hc glob hg
+
+end verifier
+
+/-! the seed's schedule: 'a0 - a1' times out in the pair-substitution block after the marker was appended, the constant-multiple
+block then rewrites it to 'a0 + a1' without losing a parameter -/
+def np2 (s : String) : Nat := if s = "a0 - a1" ∨ s = "a0 + a1" then 2 else 1
+def seedCall : List (List (Eff String Nat (List (Ent String))) × Option Nat) :=
+  [([.setSym 1, .updInv (· ++ [Ent.nan]), .setStr "a0"], some 2),
+   ([.setSym 2, .updInv (· ++ [Ent.map "{a1: -a1}"]), .setStr "a0 + a1"], none)]
+def seedGlob : Tri String Nat (List (Ent String)) := ⟨"a0 - a1", 0, []⟩
+
+theorem seed_publishes : runSchedule seedGlob [seedCall] = ⟨"a0 + a1", 2, [Ent.nan, Ent.map "{a1: -a1}"]⟩ := by
+  simp [runSchedule, runCall, seedCall, seedGlob, runBlock, runPrefix, handler, applyEff, commit]
+
+/-- **The verifier clause is needed.**  Without it (a verifier that un-merges nothing — or, like the model of a `check_results`
+with a skip on the marker, nothing that carries the marker) there is a 2-step schedule whose steps are `StepSound` (even with
+the most generous `Exact`), starting from a sound row, that ends in a published row violating the C03 invariant: the marker with a
+match of the same number of parameters. -/
+theorem verifier_needed :
+    ∃ (calls : List (List (List (Eff String Nat (List (Ent String))) × Option Nat))) (Steps : _ → Prop),
+      StepSound np2 2 (fun _ => True) Steps ∧ (∀ c ∈ calls, ∀ b ∈ c, Steps b.1) ∧ (calls.map List.length) = [2] ∧
+      C03Row np2 2 (fun _ => True) seedGlob ∧ Flagged np2 2 (fun _ => True) seedGlob ∧
+      ¬ C03Row np2 2 (fun _ => True) (verify (fun _ => false) seedGlob (runSchedule seedGlob calls)) ∧
+      ¬ C03Row np2 2 (fun _ => True) (verify (checkRow np2 2 (fun _ => true) true) seedGlob (runSchedule seedGlob calls)) := by
+  refine ⟨[seedCall], fun effs => ∀ t : Tri String Nat (List (Ent String)), ∀ o, np2 t.str ≤ 2 → np2 (runBlock t effs o).str ≤ 2,
+    ⟨?_, ?_⟩, ?_, rfl, ?_, ?_, ?_, ?_⟩
+  · intro t effs hS ht; exact ⟨hS t none ht.1, Or.inr trivial⟩
+  · intro t effs k hS ht; exact ⟨hS t (some k) ht.1, Or.inr trivial⟩
+  · intro c hc b hb t o _
+    have : np2 (runBlock t b.1 o).str ≤ 2 := by unfold np2; split <;> omega
+    exact this
+  · simp [C03Row, hasNan, seedGlob]
+  · exact ⟨by decide, Or.inr trivial⟩
+  · rw [seed_publishes]; simp [verify, C03Row, hasNan, Ent.isNan]; decide
+  · rw [seed_publishes]; simp [verify, checkRow, C03Row, hasNan, Ent.isNan]; decide
+
 /-! ### non-vacuity -/
+/-- steps that never add a parameter (with the most generous `Exact`, every such step is `StepSound`) -/
+def SeedSteps (effs : List (Eff String Nat (List (Ent String)))) : Prop :=
+  ∀ t : Tri String Nat (List (Ent String)), ∀ o, np2 t.str ≤ 2 → np2 (runBlock t effs o).str ≤ 2
+theorem seed_stepSound : StepSound np2 2 (fun _ => True) SeedSteps :=
+  ⟨fun t _ hS ht => ⟨hS t none ht.1, Or.inr trivial⟩, fun t _ k hS ht => ⟨hS t (some k) ht.1, Or.inr trivial⟩⟩
+theorem seed_steps : ∀ c ∈ [seedCall], ∀ b ∈ c, SeedSteps b.1 := by
+  intro c _ b _ t o _
+  show np2 _ ≤ 2
+  unfold np2; split <;> omega
+/-- `fault_schedule_sound_with_verifier` applies to the seed's schedule with today's `check_results` -/
+example : C03Row np2 2 (fun _ => True)
+    (verify (checkRow np2 2 (fun _ => true) skipOnNanToday) seedGlob (runSchedule seedGlob [seedCall])) :=
+  fault_schedule_sound_check_results np2 2 (fun _ => True) SeedSteps seed_stepSound (fun _ => true) seedGlob trivial
+    [seedCall] seed_steps seedGlob ⟨by decide, Or.inr trivial⟩
+example : runBlock seedGlob [.setSym 1, .updInv (· ++ [Ent.nan]), .setStr "a0"] (some 2) = ⟨"a0 - a1", 0, [Ent.nan]⟩ :=
+  fault_leaves_stale_record seedGlob 1 "a0"
+/-- the hypotheses of `fault_schedule_sound_with_verifier` are satisfiable on the seed's schedule, and with today's verifier the
+row ends un-merged with the identity map -/
+example : verify (checkRow np2 2 (fun _ => true) skipOnNanToday) seedGlob (runSchedule seedGlob [seedCall]) = ⟨"a0 - a1", 0, []⟩ := by
+  rw [seed_publishes]
+  have : skipOnNanToday = false := by decide
+  simp [this, verify, checkRow, hasNan, Ent.isNan, np2, seedGlob]
 example : blocks.length = 7 := by decide
 example : (runBlock (⟨"2*a0*x", 0, []⟩ : Tri String Nat (List String))
       [.setSym 1, .updInv (· ++ ["{a0: a0/2}"]), .setStr "a0*x"] (some 2)) = ⟨"2*a0*x", 0, ["{a0: a0/2}"]⟩ := by
